@@ -79,8 +79,9 @@ static const echs_wday_t __jan01_28y_wday[] = {
 #undef S
 
 /* we can enumerate the cross product of time components */
-/* the year slot of an instant holds 12 bits, stop unrolling before it wraps */
-#define MAX_YEAR	(4095U)
+/* the year slot of an instant holds 12 bits, stop unrolling before it wraps,
+ * mind that Hijri years convert to about 3% more Gregorian years */
+#define MAX_YEAR	(3500U)
 
 struct enum_s {
 	size_t nel;
